@@ -279,6 +279,30 @@ fn gen_scenario(rng: &mut Rng, thorough: bool, hist: &mut Vec<String>) -> Scenar
     Scenario { trail, mk, mr, pa, pb, pc, evs }
 }
 
+/// small scope, exhaustively: every stream A B^n C (n <= nmax) with B.x over {0,1,2}, every self-referencing
+/// filter `x <op> b.x`, every Kleene cap 1..n+1 and every result cap 1..2^n
+fn exhaustive(ctx: &mut Ctx, nmax: usize) {
+    let nn = |v: i64| Some(Num { e: 8 * v, as_float: false });
+    for n in 1..=nmax {
+        let total = 3usize.pow(n as u32);
+        for code in 0..total {
+            let mut evs = vec![Ev { ty: 0, x: nn(0), y: nn(0), key: None }];
+            let mut c = code;
+            for _ in 0..n { evs.push(Ev { ty: 1, x: nn((c % 3) as i64), y: nn(0), key: None }); c /= 3; }
+            evs.push(Ev { ty: 2, x: nn(0), y: nn(0), key: None });
+            for op in OPS {
+                for mk in 1..=(n as u32 + 1) {
+                    for mr in 1..=(1usize << n) {
+                        let sc = Scenario { trail: false, mk, mr, pa: None, pb: Some(P::Ref(0, op, 1, 0)), pc: None, evs: evs.clone() };
+                        run_sase(ctx, &sc);
+                        ctx.count("exhaustive:scenario");
+                    }
+                }
+            }
+        }
+    }
+}
+
 pub fn run(ctx: &mut Ctx, _name: &str) {
     let rt = tokio::runtime::Builder::new_current_thread().enable_all().build().unwrap();
     // corpus: DESIGN.md probe B.x = 5,3,9 with x > b.x
@@ -300,6 +324,7 @@ pub fn run(ctx: &mut Ctx, _name: &str) {
         run_sase(ctx, &sc);
         if sc.pa.is_none() && sc.mk == DEFAULT_MAX_KLEENE && sc.mr == DEFAULT_MAX_RESULTS { run_vpl(ctx, &sc, &rt); }
     }
+    exhaustive(ctx, if ctx.thorough { 4 } else { 2 });
     let nsc = if ctx.thorough { 6000 } else { 700 };
     for _ in 0..nsc {
         let mut h = Vec::new();
